@@ -321,6 +321,20 @@ fn run(ctx: &mut Ctx) {
             }
         }
     }
+    // long runs of one kind of unusable line between accepted frames (noise limits, streak counters)
+    for (ji, (jn, jb)) in junk.iter().enumerate() {
+        if jb.len() > 200 {
+            continue;
+        }
+        for n in junk_run_lengths(thorough) {
+            job += 1;
+            if !ctx.mine(job) {
+                continue;
+            }
+            ctx.count("junk-run");
+            junk_run(ctx, &cfg, ji, jn, jb, n);
+        }
+    }
     for (name, stream) in excerpts() {
         job += 1;
         if !ctx.mine(job) {
@@ -342,7 +356,56 @@ fn run(ctx: &mut Ctx) {
     ctx.out.exhaustive = true;
 }
 
+fn junk_run_lengths(thorough: bool) -> Vec<usize> {
+    let mut v = vec![12usize, 255, 256, 257, 1000, 10_001, 65_537];
+    if thorough {
+        v.push(300_000);
+    }
+    v
+}
+
+/// frame, n x the same unusable line, two more frames: the table must be that of the three frames
+fn junk_run(ctx: &mut Ctx, cfg: &Cfg, ji: usize, jn: &str, jb: &[u8], n: usize) {
+    let vf: Vec<Vec<u8>> = valid_frames().iter().map(|f| f.hex().into_bytes()).collect();
+    let stream: Vec<Vec<u8>> = vec![vf[0].clone(), vf[5].clone(), vf[2].clone()];
+    let (_, clean) = run_clean(cfg, &stream);
+    let mut content = vec![];
+    content.extend_from_slice(&stream[0]);
+    content.push(b'\n');
+    for _ in 0..n {
+        content.extend_from_slice(jb);
+        content.push(b'\n');
+    }
+    for l in &stream[1..] {
+        content.extend_from_slice(l);
+        content.push(b'\n');
+    }
+    let t = new_table();
+    let o = run_file(cfg, &content, &t);
+    let got = snapshot(&t);
+    ctx.eval();
+    if !o.is_ok() || got != clean {
+        ctx.violation(
+            &format!("C13/junk-run/{}", cfg.label()),
+            &format!("{n} x '{jn}'"),
+            || format!("a frame, {n} x '{jn}', two more frames: reader {}, table has {} row(s), the three frames alone give {} row(s)", o.label(), got.len(), clean.len()),
+            || json!({"kind": "junk_run", "junk": ji, "n": n, "cfg": cfg.opts}),
+        );
+    }
+}
+
 fn replay(ctx: &mut Ctx, case: &Value) {
+    if case.get("kind").and_then(|x| x.as_str()) == Some("junk_run") {
+        let opts: Vec<String> = case.get("cfg").and_then(|c| c.as_array()).map(|a| a.iter().filter_map(|x| x.as_str().map(String::from)).collect()).unwrap_or_default();
+        let o: Vec<&str> = opts.iter().map(|s| s.as_str()).collect();
+        let cfg = Cfg::new(&o);
+        let junk = junk_alphabet();
+        let ji = case.get("junk").and_then(|x| x.as_u64()).unwrap_or(0) as usize % junk.len();
+        let n = case.get("n").and_then(|x| x.as_u64()).unwrap_or(12) as usize;
+        crate::run::say(&format!("a frame, {n} x '{}', two more frames", junk[ji].0));
+        junk_run(ctx, &cfg, ji, junk[ji].0, &junk[ji].1, n);
+        return;
+    }
     let mut junk = junk_alphabet();
     if let Some(c) = case.get("custom_junk").filter(|c| !c.is_null()) {
         let len = c.get("len").and_then(|x| x.as_u64()).unwrap_or(0) as usize;
